@@ -448,6 +448,12 @@ class Pipeline:
 
     def _clear_internal_cache(self) -> None:
         clear_cached_properties(self)
+        # Called by every mutation (add/drop/replace/update_* of the pipeline and of its
+        # functions): results cached so far were computed by the previous functions,
+        # defaults and bound values and the cache key does not identify those.
+        cache = getattr(self, "cache", None)  # not yet created while `__init__` adds functions
+        if cache is not None:
+            cache.clear()
 
     def __call__(self, __output_name__: OUTPUT_TYPE | None = None, /, **kwargs: Any) -> Any:
         """Call the pipeline for a specific return value.
